@@ -396,6 +396,8 @@ class Run:
         discharged / trusted base.  A broken proof is recorded, not raised."""
         t = time.time()
         changed = gen_tables()
+        if build_targets is None:
+            build_targets = [f"theories/Props/{self.pid}.vo"]
         ok, log = coq_build(build_targets)
         n, names = count_obligations(files)
         self.cov["obligations"] = n
